@@ -584,6 +584,12 @@ class GuardAnalysis:
             sl = value.slice
             base = U(value.value)
             lh = Lin(0, {f"len({txt})": 1})
+            if sl.lower is not None and sl.upper is not None and sl.step is None:
+                # h = d[a:b]: len(h) <= b - a (a constant window at a cursor, ``d[pos : pos + 4]``) and len(h) <= len(d)
+                a_, b_ = lin(sl.lower, self.env), lin(sl.upper, self.env)
+                if a_ is not None and b_ is not None and (b_ - a_).is_const() and (b_ - a_).c >= 0:
+                    f.add((b_ - a_) - lh)
+                    f.add(Lin(0, {f"len({base})": 1}) - lh)
             if sl.lower is None and sl.upper is not None and sl.step is None:
                 k = lin(sl.upper, self.env)
                 if k is not None and k.is_const() and k.c >= 1:
